@@ -25,6 +25,17 @@ fn sentinel(n: usize) -> Vec<u8> {
 }
 
 fn check(c: &Case) -> CaseResult {
+    // start positions at the top of the u64 range are recipes relative to the archive's own size: the archive length
+    // (found by a first write at position 0) minus 127, minus 0..3 - positions at which stream offsets and
+    // archive-relative offsets happen to coincide
+    let mut c = c.clone();
+    if c.start >= u64::MAX - 3 {
+        let k = u64::MAX - c.start;
+        let (r0, s0) = write_recorded(&c.l, c.asyncw, Sched::none(), Vec::new(), 0).map_err(|f| Fail::new(format!("C18/{}", f.sig), f.msg))?;
+        r0.map_err(|e| Fail::new("C18/write-err/at-0", format!("{e}")))?;
+        c.start = (s0.data().len() as u64).saturating_sub(127 + k).saturating_add(1);
+    }
+    let c = &c;
     let p = c.start as usize;
     let pre = match c.prefill % 3 {
         0 => sentinel(p),
@@ -72,13 +83,13 @@ fn check(c: &Case) -> CaseResult {
 }
 
 fn strategy() -> impl Strategy<Value = Case> {
-    let start = prop_oneof![1 => Just(0u64), 1 => Just(1u64), 1 => Just(10u64), 1 => Just(127u64), 1 => Just(128u64), 1 => Just(4096u64), 1 => Just(16384u64), 3 => 0u64..1_000_000, 2 => 0u64..300];
+    let start = prop_oneof![1 => Just(0u64), 1 => Just(1u64), 1 => Just(10u64), 1 => Just(127u64), 1 => Just(128u64), 1 => Just(4096u64), 1 => Just(16384u64), 3 => 0u64..1_000_000, 2 => 0u64..300, 2 => (0u64..4).prop_map(|k| u64::MAX - k)];
     (logical::logical(Gen { max_tiles: 150, allow_big: false, allow_adv: false, full_floats: false }), any::<bool>(), start, 0u8..3, 0u32..200_000).prop_map(|(l, asyncw, start, prefill, extra)| Case { l, asyncw, start, prefill, extra })
 }
 
 pub fn run(ctx: &Ctx) {
     ctx.rec.set_rule(
-        "logical archive recipes (4 internal compressions; fixed-seed large ones with leaf spill) x start positions {0,1,10,127,128,4096,16384, uniform <= 10^6, small} x stream \
+        "logical archive recipes (4 internal compressions; fixed-seed large ones with leaf spill) x start positions {0,1,10,127,128,4096,16384, uniform <= 10^6, small, archive length - 127 - {-1,0,1,2}} x stream \
          pre-filled with exactly P sentinel bytes / with P + extra / empty but positioned at P x sync and async writer. Oracle: bytes [0,P) unchanged; stream[P..] passes the \
          independent reader's full conformance check against the model (offsets relative to P) and opens in the library to the model; final stream position = P + end of tile \
          data. Non-trivial: P > 0; distinct by digest.",
